@@ -15,7 +15,7 @@ func (g *Gen) Pick(xs []string) string { return xs[g.R.Intn(len(xs))] }
 func (g *Gen) Chance(p float64) bool    { return g.R.Float64() < p }
 func (g *Gen) Pick2(xs [][]string) []string { return xs[g.R.Intn(len(xs))] }
 
-var Keys = []string{"k1", "k2", "k3", "k4", ""}
+var Keys = []string{"k1", "k2", "k3", "k4", "", "k1", "k2", "c\r\nk"}
 
 // Values written by SET/MSET/APPEND: strings, canonical and non-canonical numerics, edge ints,
 // binary, CR/LF, and a few outside the exact float domain (the model answers "unmodelled" there).
